@@ -151,7 +151,10 @@ namespace bxdecay0 {
 
   void event::store(std::ostream & out_, const uint32_t flags_) const
   {
+    // The record holds decimal numbers with 15 significant digits, whatever notation or base the stream was left in:
     out_.precision(15);
+    out_.unsetf(std::ios_base::floatfield);
+    out_.setf(std::ios_base::dec, std::ios_base::basefield);
     if ((flags_ & STORE_EVENT_DECO) != 0U) {
       out_ << "#@event_start" << std::endl;
     }
